@@ -92,6 +92,21 @@ def r2_sign_siblings(ctx):
     ctx.floor("sign-table cells (DIP copies)", cells, 20, rule="C18.R2")
 
 
+def _expression_solves(fn):
+    """Calls `<x>.solve(..)` where <x> is bound by `with ExpressionSolver(..) as <x>` or `<x> = ExpressionSolver(..)`."""
+    names = set()
+    for n in ast.walk(fn):
+        if isinstance(n, ast.With):
+            for it in n.items:
+                if isinstance(it.context_expr, ast.Call) and norm(it.context_expr.func).endswith("ExpressionSolver") and isinstance(it.optional_vars, ast.Name):
+                    names.add(it.optional_vars.id)
+        if isinstance(n, ast.Assign) and isinstance(n.value, ast.Call) and norm(n.value.func).endswith("ExpressionSolver"):
+            names |= {t.id for t in n.targets if isinstance(t, ast.Name)}
+    return [c for c in ast.walk(fn) if isinstance(c, ast.Call) and isinstance(c.func, ast.Attribute) and c.func.attr == "solve"
+            and (isinstance(c.func.value, ast.Name) and c.func.value.id in names
+                 or isinstance(c.func.value, ast.Call) and norm(c.func.value.func).endswith("ExpressionSolver"))]
+
+
 def r3_unit_add(ctx):
     for cname, op in (("CustomOperatorAdd", ast.Add), ("CustomOperatorSub", ast.Sub)):
         fn = ctx.fn(NS, f"{cname}.operate_binary")
@@ -159,12 +174,18 @@ def r4_boundary_kinds(ctx):
         inside = [c for c in convs if any(c is x for x in ast.walk(scope[0]))]
         ctx.check(bool(convs) and len(inside) == len(convs), NS, "NumericalSolver.solve", "the conversion to the requested unit happens while the custom units are registered",
                   detail=[norm(c) for c in convs], expected="inside `with UnitEnvironment(self.env.units)`")
-        es = [c for c in ast.walk(solve) if isinstance(c, ast.Call) and norm(c.func) == "es.solve"]
-        ctx.check(bool(es) and all(any(c is x for x in ast.walk(scope[0])) for c in es), NS, "NumericalSolver.solve", "the expression is evaluated while the custom units are registered")
+        es = _expression_solves(solve)
+        ctx.form(bool(es), NS, "NumericalSolver.solve", "the evaluation of the expression (ExpressionSolver ... .solve) is found")
+        if es:
+            ctx.check(all(any(c is x for x in ast.walk(scope[0])) for c in es), NS, "NumericalSolver.solve", "the expression is evaluated while the custom units are registered",
+                      detail=[norm(c) for c in es if not any(c is x for x in ast.walk(scope[0]))] or None)
     lsolve = ctx.fn(LS, "LogicalSolver.solve")
     scope = [w for w in ast.walk(lsolve) if isinstance(w, ast.With) and "UnitEnvironment(self.env.units)" in norm(w.items[0].context_expr)]
-    es = [c for c in ast.walk(lsolve) if isinstance(c, ast.Call) and norm(c.func) == "es.solve"]
-    ctx.check(len(scope) == 1 and bool(es) and all(any(c is x for x in ast.walk(scope[0])) for c in es), LS, "LogicalSolver.solve", "logical expressions are evaluated while the custom units are registered")
+    es = _expression_solves(lsolve)
+    ctx.form(len(scope) == 1 and bool(es), LS, "LogicalSolver.solve", "one custom-unit scope and the evaluation of the expression are found")
+    if len(scope) == 1 and es:
+        ctx.check(all(any(c is x for x in ast.walk(scope[0])) for c in es), LS, "LogicalSolver.solve", "logical expressions are evaluated while the custom units are registered",
+                  detail=[norm(c) for c in es if not any(c is x for x in ast.walk(scope[0]))] or None)
     C16.r4_guarded_deref(ctx)
     # negation table of the DIP copy, bare booleans and repeated negation included
     log = _cfg(ctx, LS)
